@@ -502,6 +502,13 @@ impl Tee {
             }
         }
 
+        // without the model (C01's exhaustive exploration: only "returns, and keeps working") the
+        // non-trivial steps are still counted, by the same rule
+        if !cfg.model && nontrivial(&cfg.target, &op, &pre, &post, &notes) {
+            chk.stats.nontrivial.insert(hash_of(&(hash_of(&pre), &op)));
+            chk.stats.sample(|| format!("{}x{} cursor=({},{}) :: {}", pre.cols, pre.lines, pre.cx, pre.cy, pretty_op(&op)));
+        }
+
         // ---- C17 ----
         if cfg.dirty && !matches!(op, Op::ClearDirty) {
             let all: std::collections::BTreeSet<u32> = (0..post.lines).collect();
